@@ -572,6 +572,74 @@ def real_inflight_probe(cls, slow_on_second, max_requests=2, d=2.5, timeout=30):
     return out
 
 
+def real_pair_recycle_probe(cls="sync", rounds=4, workers=2):
+    """A REAL master with `workers` workers and max_requests=1: pairs of simultaneous requests take all the workers to the limit at
+    the same moment, round after round.  EVERY one of them exits and is replaced (no dead worker left un-reaped, the pool back
+    at its size) before the next pair."""
+    import lib_arb2_real as R
+    import socket as _s
+    srv = R.Server(worker_class=cls, workers=workers, graceful=8, bind="unix", keepalive=0, timeout=30, extra={"max_requests": 1})
+    out = {"cls": cls, "workers": workers, "rounds": []}
+    try:
+        srv.start()
+        R.wait_for(lambda: len(srv.children()) == workers, 10)
+        for rnd in range(rounds):
+            before = sorted(srv.children())
+            cs = []
+            for _ in range(workers):
+                c = _s.socket(_s.AF_UNIX, _s.SOCK_STREAM)
+                c.settimeout(15)
+                c.connect(srv.sock_path)
+                c.sendall(R.Client.request(d=0.3))
+                cs.append(c)
+            sts, pids = [], []
+            for c in cs:
+                data = b""
+                try:
+                    while True:
+                        blk = c.recv(65536)
+                        if not blk:
+                            break
+                        data += blk
+                except OSError as e:
+                    data += b"<" + type(e).__name__.encode() + b">"
+                c.close()
+                r = R.parse_response(data)
+                sts.append(r["status"])
+                pids.append(r.get("pid"))
+
+            def settled():
+                ch = sorted(srv.children())
+                return ch if len(ch) == workers and not (set(ch) & set(p for p in pids if p)) else None
+            new = R.wait_for(settled, 10)
+            zombies = []
+            for n in os.listdir("/proc"):
+                if n.isdigit() and R.proc_ppid(int(n)) == srv.master and not R.pid_alive(int(n)):
+                    zombies.append(int(n))
+            out["rounds"].append({"before": before, "statuses": sts, "served_by": pids, "after": sorted(srv.children()),
+                                  "settled": bool(new), "unreaped": sorted(zombies)})
+            if not new:
+                break
+    except Exception as e:
+        out["harness_error"] = "%s: %s | %s" % (type(e).__name__, e, srv.read_log()[-600:])
+    finally:
+        srv.cleanup()
+    return out
+
+
+def judge_pair_recycle(res):
+    if "harness_error" in res:
+        return ["harness: " + res["harness_error"]]
+    fails = []
+    for i, r in enumerate(res["rounds"]):
+        if any(st != 200 for st in r["statuses"]):
+            fails.append("round %d: a request was not answered: statuses %r" % (i, r["statuses"]))
+        if not r["settled"]:
+            fails.append("round %d: the workers %r reached max_requests at the same moment; 10 s later the master's live workers are %r "
+                         "(configured %d) and its un-reaped dead children %r" % (i, r["served_by"], r["after"], res["workers"], r["unreaped"]))
+    return fails
+
+
 def judge_real_inflight(res):
     fails = []
     if "harness_error" in res:
@@ -773,10 +841,16 @@ def run(ctx):
     # these worker classes the heartbeat does not depend on how long a request takes - while the worker drains, too
     combos2 += [(c, False, 2, 4.5, 2) for c in ("gevent", "eventlet", "gthread")]
     results2 = [None] * len(combos2)
+    pair_specs = [("sync", 4, 2)] if quick else [("sync", 6, 2), ("sync", 4, 3)]
+    pair_res = [None] * len(pair_specs)
 
     def work2(i):
         results2[i] = real_inflight_probe(*combos2[i])
+
+    def work3(i):
+        pair_res[i] = real_pair_recycle_probe(*pair_specs[i])
     ths = [threading.Thread(target=work2, args=(i,)) for i in range(len(combos2))]
+    ths += [threading.Thread(target=work3, args=(i,)) for i in range(len(pair_specs))]
     for t in ths:
         t.start()
     for t in ths:
@@ -802,6 +876,19 @@ def run(ctx):
             else:
                 ctx.violation("real %s worker, two listeners, max_requests=2%s: %s" % (cls2, ", timeout=2 < request" if long_req else "", f),
                               {"kind": "real-inflight", "cls": cls2, "slow_on_second": sec, "args": list(combo)})
+    # REAL masters whose workers all reach the limit at the same moment
+    for spec, res in zip(pair_specs, pair_res):
+        if res is None or "harness_error" in res:
+            res = real_pair_recycle_probe(*spec)
+        ctx.count_case(("real-pair-recycle",) + tuple(spec), True)
+        ctx.hist("real_pair_recycle", "%s x%d" % (spec[0], spec[2]))
+        ctx.extra.setdefault("real_pair_recycle", []).append(res)
+        for f in judge_pair_recycle(res)[:2]:
+            if f.startswith("harness:"):
+                ctx.broken.append("real pair-recycle probe %r could not be carried out: %s" % (spec, f[:500]))
+            else:
+                ctx.violation("real master, %d %s workers, max_requests=1, simultaneous requests: %s" % (spec[2], spec[0], f),
+                              {"kind": "real-pair-recycle", "args": list(spec)})
     # the real accept loops of the sync worker with clients already queued on one / several listeners
     combos = [(1, 1), (2, 1), (2, 2), (1, 3), (3, 2)] if quick else [(m, n) for m in (1, 2, 3, 5) for n in (1, 2, 3)]
     for mr, nl in combos:
@@ -868,6 +955,12 @@ def replay(rep):
     if rep.get("kind") == "real-inflight":
         res = real_inflight_probe(*rep["args"]) if rep.get("args") else real_inflight_probe(rep["cls"], rep["slow_on_second"])
         fs = judge_real_inflight(res)
+        print(res)
+        print("failures:", fs)
+        return 1 if fs else 0
+    if rep.get("kind") == "real-pair-recycle":
+        res = real_pair_recycle_probe(*rep["args"])
+        fs = judge_pair_recycle(res)
         print(res)
         print("failures:", fs)
         return 1 if fs else 0
